@@ -21,6 +21,8 @@ Variable H : string -> string.
 Variable enc : list json -> string.
 Variable parse_index : string -> option nat.
 Variable parse_usize : string -> option nat.
+Variable pos : string -> nat.
+Notation add_sd := (T1a.add_sd pos).
 Notation blind := (blind H enc).
 Notation dig_item := (dig_item H enc).
 Notation dig_mem := (dig_mem H enc).
@@ -31,7 +33,7 @@ Notation hdigs_item := (hdigs_item H enc).
 Notation hdigs_mem := (hdigs_mem H enc).
 Notation adigs_item := (adigs_item H enc alldigs).
 Notation adigs_mem := (adigs_mem alldigs).
-Notation mark := (mark H enc parse_index parse_usize).
+Notation mark := (mark H enc parse_index parse_usize pos).
 Notation target := (target parse_index parse_usize).
 Notation mk_disc := (mk_disc H enc).
 
@@ -53,7 +55,9 @@ Proof.
   inversion Hn as [|? ? Hn1 Hn2]; subst. unfold sd_names_ok in Hn1. cbn in Hn1.
   destruct (String.compare "_sd" n) eqn:Ec.
   - apply String.compare_eq_iff in Ec. subst n. destruct mk as [| |l]; try (exfalso; apply Hn1; reflexivity).
-    cbn [flat_map T2c.adigs_mem]. rewrite <- app_assoc. cbn [app]. symmetry. apply Permutation_middle.
+    cbn [flat_map T2c.adigs_mem].
+    match goal with |- Permutation (insert_at ?n g l ++ ?Y) _ => change (g :: l ++ Y)%list with ((g :: l) ++ Y)%list end.
+    apply Permutation_app_tail. apply perm_insert_at.
   - reflexivity.
   - cbn [flat_map]. etransitivity; [apply Permutation_app_head; apply IH; assumption|].
     symmetry. apply Permutation_middle.
@@ -76,7 +80,7 @@ Proof.
       apply upd_mem_inv in Eu as (pre & x & post & x' & Hsplit & -> & Hf & Hni).
       destruct x as [[| |] s0]; try discriminate. injection Hf as <-.
       rewrite Hsplit, find_mid in Hm, Ht by assumption. injection Hm as <-. injection Ht as <- <-.
-      pose proof (wf_obj_names H enc parse_index parse_usize _ Hw) as Hn0.
+      pose proof (wf_obj_names H enc parse_index parse_usize pos _ Hw) as Hn0.
       inversion Hw as [| | ? Hs Hall Hok]; subst mems0.
       set (mems' := (pre ++ (key, (MHid salt, s0)) :: post)%list).
       assert (Hkey : key <> "_sd").
